@@ -263,9 +263,15 @@ Definition check_step (m : mstate) (st : step) : N * mstate :=
              | Some (mref, okref) => okref && (if committed then store_eqb mref (fst d) && store_eqb (fst d) mref else true)
              | None => true
              end &&
-             (* nothing is written unless the commit succeeded for real *)
-             (if committed then true else match nget (m_states m) (m_tip m) with
-                                          | Some s => store_eqb s (fst d) | None => Nat.eqb (length (fst d)) 0 end)), m')
+             (* nothing is written unless the commit succeeded for real: state and tree-state record as before *)
+             (if committed then match snd d with Some h => h =? height | None => false end
+              else match nget (m_states m) (m_tip m) with
+                   | Some s => store_eqb s (fst d) | None => Nat.eqb (length (fst d)) 0 end &&
+                   match a_tree_state (m_db m), snd d with
+                   | Some (h, _), Some h' => h =? h'
+                   | None, None => true
+                   | _, _ => false
+                   end)), m')
   | SRevert height e r rootref treeref d =>
       let cur := match nget (m_roots m) height with Some x => x | None => [] end in
       let prev := match nget (m_roots m) (height - 1) with Some x => x | None => [] end in
